@@ -136,8 +136,9 @@ class BitStringBitReader(BitReader):
         """
         try:
             return self.bit_stream.read(fmt_string)
-        except self.bitstring_Error as e:
-            raise BitReadError(e.msg)
+        except (self.bitstring_Error, ValueError) as e:
+            # bitstring reports a bool read past the end as a plain ValueError
+            raise BitReadError(getattr(e, 'msg', str(e)))
 
     def read_bytes(self, nbytes):
         return self._bit_stream_read('bytes:{}'.format(nbytes))
